@@ -491,7 +491,7 @@ class Prov:
             for x in t[1]:
                 self._root(x, path, depth - 1, out)
             return
-        if k in ('call', 'bound'):
+        if k in ('call', 'bound') and self.unbound(t)[0] == 'call':
             name = self.call_name(self.unbound(t))
             tag = None
             if name:
@@ -529,6 +529,7 @@ class Prov:
                         else:
                             done = False
                             for cr, cp in self.root(args[1], depth=8) if False else self._roots_nested(args[1]):
+                                cr = self.unbound(cr)
                                 if cr[0] == 'agg' and self._agg_rv(cr)['adt'] == 'closure':
                                     body = self.F.fns.get(self._agg_rv(cr)['adt_id'])
                                     if body is not None:
